@@ -10,13 +10,15 @@ N == Len(Rec)
 TrCfgs == {[named |-> n, inpg |-> g, hsup |-> s, kids |-> k] :
              n \in BOOLEAN, g \in BOOLEAN, s \in BOOLEAN, k \in {{}, {"k1"}, {"k1", "k2"}}}
 
-VARIABLE l
-tvars == <<vars, l>>
+VARIABLES l,
+          opt   \* [racer, late]: whether this run has a second set_status caller / late repeated calls at all
+tvars == <<vars, l, opt>>
 Ev == Rec[l]
 Adv == l' = l + 1
 Live == l <= N
 IsA(a) == Live /\ Ev.a = a
 Same == UNCHANGED vars
+NoOpt == UNCHANGED opt
 B(i) == i = 1
 
 \* an internal step (a verif::point inside ractor) of process `who`
@@ -50,7 +52,7 @@ XEv ==
   \/ Inl("guard.unlinked", "x", XUnlink)
   \/ Inl("status.set", "x", XGuardStop /\ StatusOk(Stopped))
   \/ Inl("guard.done", "x", XGuardDone)
-  \/ Inl("status.set", "x", \E v \in {Stopping, Stopped} : XLate(v) /\ StatusOk(v))
+  \/ (opt.late /\ Inl("status.set", "x", \E v \in {Stopping, Stopped} : XLate(v) /\ StatusOk(v)))
   \/ SubEv("x")
 REv ==
   \/ Inl("status.set", "r", RSet /\ StatusOk(Stopping))
@@ -107,6 +109,7 @@ SkipInternal == ~Strict /\ Live /\ Ev.a \in InternalLabels /\ Same /\ Adv
 
 Reset ==
   /\ IsA("reset") /\ Adv
+  /\ opt' = [racer |-> B(Ev.meta.racer), late |-> B(Ev.meta.late)]
   /\ \E c \in TrCfgs :
        /\ c.named = B(Ev.meta.named) /\ c.inpg = B(Ev.meta.inpg) /\ c.hsup = B(Ev.meta.hsup)
        /\ Cardinality(c.kids) = Ev.meta.kids /\ (Ev.meta.kids = 1 => c.kids = {"k1"})
@@ -123,11 +126,14 @@ Reset ==
   /\ wt' = [w \in Waiters |-> [timed |-> FALSE, kind |-> "wait"]]
   /\ round' = [w \in Waiters |-> 0] /\ okret' = FALSE /\ stLow' = FALSE
 
-TNext == Reset \/ End \/ SkipInternal \/ XEv \/ REv \/ SupEv \/ TimerEv \/ \E w \in Waiters : WEv(w)
+TNext == \/ Reset
+         \/ ((End \/ SkipInternal \/ XEv \/ (opt.racer /\ REv) \/ SupEv \/ TimerEv \/ \E w \in Waiters : WEv(w)) /\ NoOpt)
 
-TInit == Init /\ l = 1 /\ TLCSet(42, 1)
+TInit == Init /\ l = 1 /\ opt = [racer |-> FALSE, late |-> FALSE] /\ TLCSet(42, 1)
 TSpec == TInit /\ [][TNext]_tvars
-Progress == TLCSet(42, IF l > TLCGet(42) THEN l ELSE TLCGet(42))
+Progress == /\ TLCSet(42, IF l > TLCGet(42) THEN l ELSE TLCGet(42))
+            \* EARLY=1 (lenient validation): one behaviour that explains the whole trace is enough, stop there
+            /\ (IF l > N /\ IOEnv.EARLY = "1" THEN PrintT("ACCEPTED_EARLY") /\ TLCSet("exit", TRUE) ELSE TRUE)
 Accepted == IF TLCGet(42) > N THEN TRUE
             ELSE /\ PrintT(<<"REJECTED_AT", TLCGet(42), Rec[TLCGet(42)]>>)
                  /\ FALSE
